@@ -148,6 +148,7 @@ class Result:
 
 
 Z3_TIMEOUT_MS = int(os.environ.get('PYVC_Z3_TIMEOUT_MS', '20000'))
+CROSS_TIMEOUT_S = 10
 CLI_TIMEOUT_S = int(os.environ.get('PYVC_CLI_TIMEOUT_S', '60'))
 
 
@@ -210,9 +211,11 @@ def prove(assumptions, goal, both=False):
             if r in ('sat', 'unsat'):
                 st, backend = r, 'z3-new-cli'
     elif both:
+        # cross-check of a decided verdict: a short budget is enough (cvc5 either confirms quickly or gives up on the
+        # quantified obligations; only a *contradicting* verdict matters)
         text = to_smt2(query)
-        r = _run_cli(['/usr/bin/cvc5', '--strings-exp', '--tlimit=%d' % (CLI_TIMEOUT_S * 1000)], text,
-                     CLI_TIMEOUT_S + 5)
+        r = _run_cli(['/usr/bin/cvc5', '--strings-exp', '--tlimit=%d' % (CROSS_TIMEOUT_S * 1000)], text,
+                     CROSS_TIMEOUT_S + 5)
         if r in ('sat', 'unsat') and r != st:
             return Result('fault', 'z3+cvc5', time.time() - t0, reason='z3=%s cvc5=%s' % (st, r))
         if r == st:
